@@ -76,9 +76,11 @@ func (m *Map[K, V]) FromJSON(data []byte) error {
 		return err
 	}
 
-	// position of every member name in the input, taken from the token stream
-	// (searching the raw text would also find the name inside values)
-	position := make(map[string]int)
+	// position of every key in the input, taken from the token stream (searching the
+	// raw text would also find the name inside values); a member name is turned into
+	// its key the way encoding/json does it, so that a name in another spelling
+	// ("007", "+7") still finds its key
+	index := make(map[K]int)
 	decoder := json.NewDecoder(bytes.NewReader(data))
 	if _, err := decoder.Token(); err == nil {
 		for n := 0; decoder.More(); n++ {
@@ -87,7 +89,14 @@ func (m *Map[K, V]) FromJSON(data []byte) error {
 				break
 			}
 			if name, ok := token.(string); ok {
-				position[name] = n
+				if quoted, err := json.Marshal(name); err == nil {
+					var single map[K]json.RawMessage
+					if json.Unmarshal([]byte("{"+string(quoted)+":null}"), &single) == nil {
+						for key := range single {
+							index[key] = n
+						}
+					}
+				}
 			}
 			var value json.RawMessage
 			if decoder.Decode(&value) != nil {
@@ -96,15 +105,9 @@ func (m *Map[K, V]) FromJSON(data []byte) error {
 		}
 	}
 
-	index := make(map[K]int)
 	var keys []K
 	for key := range elements {
 		keys = append(keys, key)
-		var name string
-		if esc, err := memberName(key); err == nil {
-			_ = json.Unmarshal(esc, &name)
-		}
-		index[key] = position[name]
 	}
 
 	byIndex := func(key1, key2 K) int {
